@@ -8,7 +8,7 @@ Parameter values are Python `str` or `int` objects (`PVal`); `repr` renders them
 `parse` yields only `str` values, so `parse (repr u) = strVals u`.
 
 `pyInt` models `int(str)` for ASCII digits (optional sign, single underscores between digits,
-surrounding whitespace); non-ASCII decimal digits and the 4300-digit limit are outside the model.
+surrounding whitespace — `\t\n\v\f\r`, space and the non-ASCII Unicode spaces, but not U+001C..U+001F, as CPython does); non-ASCII decimal digits and the 4300-digit limit are outside the model.
 -/
 namespace Nx.Nex.StationURL
 open Nx Nx.Nex
@@ -45,7 +45,7 @@ def PVal.render : PVal → Str
 
 def isPySpace (c : Char) : Bool :=
   let n := c.toNat
-  (9 ≤ n && n ≤ 13) || (28 ≤ n && n ≤ 32) || n == 0x85 || n == 0xA0 || n == 0x1680 ||
+  (9 ≤ n && n ≤ 13) || n == 32 || n == 0x85 || n == 0xA0 || n == 0x1680 ||
   (0x2000 ≤ n && n ≤ 0x200A) || n == 0x2028 || n == 0x2029 || n == 0x202F || n == 0x205F || n == 0x3000
 
 /-- digits with single underscores strictly between digits; returns the digit characters.
